@@ -315,7 +315,7 @@ fn apply_plain(it: &mut It, op: Op, input_len: usize) {
             it.next();
         }
         Op::Peek(n) => {
-            let n = if n == usize::MAX { input_len + 1 } else { n };
+            let n = peek_arg(n, input_len);
             it.bare().peek_n(n);
         }
         Op::AdvPeek(k) => {
@@ -326,6 +326,18 @@ fn apply_plain(it: &mut It, op: Op, input_len: usize) {
         }
         Op::SetOffset(o) => it.set_offset(o),
         Op::SetMode(m) => it.set_mode(m),
+    }
+}
+
+/// `usize::MAX` in an op set stands for |x|+1, `usize::MAX - 1` for the literal `usize::MAX`
+/// ("everything that is left").
+pub fn peek_arg(n: usize, input_len: usize) -> usize {
+    if n == usize::MAX {
+        input_len + 1
+    } else if n == usize::MAX - 1 {
+        usize::MAX
+    } else {
+        n
     }
 }
 
@@ -419,7 +431,7 @@ pub fn explore(ctx: &Ctx) -> Explored {
                         dis = check_next(ctx, &mut st, &r);
                     }
                     Op::Peek(n) => {
-                        let n = if n == usize::MAX { input_len + 1 } else { n };
+                        let n = peek_arg(n, input_len);
                         let o = conv(it.bare().peek_n(n));
                         peek_class = Some(match o {
                             PeekOut::Matches(_) => 0,
